@@ -2,6 +2,8 @@ package c13
 
 import (
 	"encoding/json"
+	"fmt"
+	"strconv"
 	"strings"
 	"sync"
 
@@ -72,7 +74,7 @@ func fill(r *core.Rand, x *xspec) {
 		x.Fault = core.Pick(r, []string{"torn", "torn", "tornrst", "garble", "fin", "fin", "hdr", "mute"})
 	case "up-reject":
 		x.Via = core.Pick(r, []string{"hup", "tup"})
-		x.Status = core.Pick(r, []int{403, 407, 502, 503, 302})
+		x.Status = core.Pick(r, []int{403, 407, 502, 503, 302, 101})
 	case "up-badtls":
 		x.Via = core.Pick(r, []string{"ptup", "utup"})
 	case "sk-fault":
@@ -84,7 +86,7 @@ func fill(r *core.Rand, x *xspec) {
 			x.End = core.Pick(r, []string{"close", "fin", "rst"})
 		}
 	case "connect-reject":
-		x.Status = core.Pick(r, []int{403, 407, 502, 503, 302})
+		x.Status = core.Pick(r, []int{403, 407, 502, 503, 302, 101})
 	case "abort-upload":
 		x.Body = core.Pick(r, []int{1 << 20, 3 << 20})
 		x.End = core.Pick(r, []string{"rst", "close"})
@@ -111,11 +113,21 @@ func fill(r *core.Rand, x *xspec) {
 
 // genRound draws 1-8 connections of 1-5 exchanges. target: "" | "dialfail" (an exchange in which the proxy holds a
 // dialled connection when it fails) | "f12" (a transport-level CONNECT
-// rejection, the path of the repaired F12: a regression target) | "f40" (a CONNECT answered 101, the
-// recorded class) | "f42" (an origin answering 101 without a protocol switch, the path of the repaired
-// F42: a regression target) puts one such exchange into the round.
+// rejection, the path of the repaired F12: a regression target) | "f40/<n>" (a CONNECT answered 101 by the
+// upstream proxy, the paths of the repaired F40: a regression target; n picks the shape — the client's CONNECT
+// through the http proxy of the older kinds, through the http and through the https proxy of the dial-then-fail
+// kinds, the transport's own CONNECT for 'GET https://' and another method, the same inside an intercepted
+// session — and the server mode, so that every shape runs under the TCP server and, but for the intercepted
+// session, under the http.Handler) | "f42" (an origin answering 101 without a protocol switch, the path of the
+// repaired F42: a regression target) puts one such exchange into the round.
 func genRound(r *core.Rand, defect string) *roundCase {
 	rc := &roundCase{Kind: "round", Handler: r.Chance(20), Insecure: r.Chance(35)}
+	f40 := -1
+	if rest, ok := strings.CutPrefix(defect, "f40/"); ok {
+		f40, _ = strconv.Atoi(rest)
+		rc.Handler = (f40/len(f40Shapes))%2 == 1
+		defect = "f40"
+	}
 	nc := r.Range(1, 8)
 	for i := 0; i < nc; i++ {
 		var cs connSpec
@@ -140,7 +152,7 @@ func genRound(r *core.Rand, defect string) *roundCase {
 			n = 2 // two on one round, possibly on one connection: the connection is kept after the relay
 		}
 		for i := 0; i < n; i++ {
-			x := xspec{Kind: core.Pick(r, []string{"f12-plain", "f12-plain", "f12-mitm"}), Status: core.Pick(r, []int{403, 407, 502, 503, 302, 429}),
+			x := xspec{Kind: core.Pick(r, []string{"f12-plain", "f12-plain", "f12-mitm"}), Status: core.Pick(r, []int{403, 407, 502, 503, 302, 429, 101}),
 				Method: core.Pick(r, []string{"GET", "GET", "HEAD", "POST", "OPTIONS"})}
 			if x.Method == "POST" {
 				x.Body = core.Pick(r, []int{0, 1, 300})
@@ -185,24 +197,48 @@ func genRound(r *core.Rand, defect string) *roundCase {
 		pos = r.Intn(pos + 1)
 		c.Exchanges = append(c.Exchanges[:pos], append([]xspec{{Kind: "status", Status: 101}}, c.Exchanges[pos:]...)...)
 	case "f40":
-		c := &rc.Conns[r.Intn(len(rc.Conns))]
-		if r.Chance(35) {
-			c.Exchanges = append(c.Exchanges, xspec{Kind: "f12-plain", Status: 101})
-		} else {
-			c.Exchanges = append(c.Exchanges, xspec{Kind: "connect-reject", Status: 101})
+		x := f40Shapes[f40%len(f40Shapes)]
+		if rc.Handler && x.Kind == "f12-mitm" {
+			x.Kind = "f12-plain" // no interception under the http.Handler
 		}
+		if x.Method == "POST" {
+			x.Body = core.Pick(r, []int{0, 1, 300})
+		}
+		c := &rc.Conns[r.Intn(len(rc.Conns))]
+		// anywhere before a terminal exchange: the exchanges after it run on a new connection (the client
+		// does not go on after a 1xx answer), those before it on the connection the 101 is written to
+		pos := len(c.Exchanges)
+		for j, e := range c.Exchanges {
+			if terminal(e.Kind) {
+				pos = j
+				break
+			}
+		}
+		pos = r.Intn(pos + 1)
+		c.Exchanges = append(c.Exchanges[:pos], append([]xspec{x}, c.Exchanges[pos:]...)...)
 	}
 	return rc
+}
+
+// f40Shapes: the ways a CONNECT can be answered 101 by an upstream proxy without a tunnel following
+var f40Shapes = []xspec{
+	{Kind: "connect-reject", Status: 101},
+	{Kind: "up-reject", Via: "hup", Status: 101},
+	{Kind: "up-reject", Via: "tup", Status: 101},
+	{Kind: "f12-plain", Status: 101, Method: "GET"},
+	{Kind: "f12-plain", Status: 101, Method: "POST"},
+	{Kind: "f12-mitm", Status: 101, Method: "GET"},
+	{Kind: "f12-plain", Status: 101, Method: "HEAD"},
 }
 
 func Run(ctx *core.Ctx) {
 	ctx.SetRule("rounds of 1-8 concurrent client connections of 1-5 exchanges each against a real proxy with a fresh Prometheus registry " +
 		"(basic auth, deny-domains, upstream proxy for some hosts, MITM for some hosts, traffic tracking on): GET/HEAD/POST/PUT/OPTIONS with bodies, " +
 		"origin statuses, 407/403/400 refusals, upstream refused / reset mid-head / reset mid-body / header timeout, CONNECT tunnels direct and through the " +
-		"upstream proxy (ok, dial failure, rejection incl. 101), CONNECTs that fail AFTER the proxy dialled a connection (X-Martian-Terminate-Tls to a plain-text target / through an http upstream proxy / through SOCKS5 / with the default TLS client, which cannot terminate at all; " +
+		"upstream proxy (ok, dial failure, rejection incl. 101 — by the http and by the https upstream proxy, every 10th round, under the TCP server and the http.Handler), CONNECTs that fail AFTER the proxy dialled a connection (X-Martian-Terminate-Tls to a plain-text target / through an http upstream proxy / through SOCKS5 / with the default TLS client, which cannot terminate at all; " +
 		"the CONNECT to an http or https upstream proxy torn by FIN or RST, garbled, cut, never answered (ConnectTimeout), its header function failing, rejected; TLS to an https upstream proxy failing after the TCP connect; SOCKS5 negotiation refused, torn, cut, never answered, not SOCKS at all; " +
 		"a ConnectFunc returning a connection together with an error; TLS to the origin failing below the transport, also inside an intercepted session; a failed MITM handshake) with their control cases (terminate-TLS tunnel with --insecure, tunnels through the https proxy / SOCKS5 / the ConnectFunc), " +
-		"whose peers wait for the proxy's end of every connection, requests whose CONNECT the upstream proxy rejects inside the proxy's transport (GET https:// and inside an intercepted session), MITM hand-off with requests inside, 101 upgrade tunnels, a 101 that is no protocol switch (answered 502), client aborts while uploading / " +
+		"whose peers wait for the proxy's end of every connection, requests whose CONNECT the upstream proxy rejects inside the proxy's transport (GET https:// and inside an intercepted session; with 101 as well), MITM hand-off with requests inside, 101 upgrade tunnels, a 101 that is no protocol switch (answered 502), client aborts while uploading / " +
 		"downloading / before reading the response (RST and FIN), EOF and garbage before a request, keep-alive reuse; tunnel ends by close/FIN/RST; " +
 		"plus cases on the exported Listener/Dialer: 1-6 accepted and 0-4 dialled connections with byte transfers, each closed by 1-4 goroutines at once " +
 		"(some twice), refused dials, Accept on a closed listener; " +
@@ -297,8 +333,8 @@ func Run(ctx *core.Ctx) {
 			defect = "f12"
 		case i%4 == 1:
 			defect = "dialfail"
-		case i%50 == 13:
-			defect = "f40"
+		case i%10 == 6:
+			defect = fmt.Sprintf("f40/%d", i/10)
 		case i%50 == 27:
 			defect = "f42"
 		}
